@@ -24,8 +24,8 @@ ROWS = {
          "T: constants, shapes, guards, registrations · H: scheme pipeline, KDFs",
          "scheme (NewHash→Check→crypt.Check byte-for-byte under scripted entropy; BSDi integer coding; cost at the exported bound; unicode / ill-formed UTF-8 passwords for NT hash)",
          "scheme-level model tied by correspondence"),
- "C02": ("C02.check_ok_iff (nil ⇔ Key's result re-encodes to the stored digest), error-return theorems, tampered_digest_never_ok, absorption reductions for md5-crypt/SHA-crypt/Sun MD5/sha1 (equal keys ⇒ equal password or a collision of H)",
-         "T+H", "scheme (near-miss passwords, every digest-symbol substitution)", "collision resistance is a hypothesis; DES/bcrypt/Argon2 absorption sampled"),
+ "C02": ("C02.check_ok_iff (nil ⇔ Key's result re-encodes to the stored digest), error-return theorems, tampered_digest_never_ok; for EVERY scheme the documented password equivalence as a predicate, 'equivalent ⇒ same verdict' and 'both verify ⇒ equivalent ∨ a named collision of the primitive' (KdfProps.*_absorbs, C02b.des/desext/bcrypt/nthash/argon2_check_absorbs); desext_twin_checks, bcryptEquiv_coarser (the algorithm's equivalence is coarser than the wording: F16, F17)",
+         "T+H", "scheme (near-miss passwords under each scheme's equivalence, every digest-symbol substitution, the proved inherent equivalences replayed)", "the non-collision of the primitives is an explicit disjunct (a hypothesis, never an axiom)"),
  "C03": ("model = reference written from the published algorithm, ∀ inputs (and ∀ hash function where generic): md5crypt_eq_spec, sha2crypt_eq_spec, C03b.sha1crypt_eq_spec, sunmd5_eq_spec(_wrap), nthash_eq_spec, bcrypt_eq_spec (+ bcrypt_long_password_deviation: the documented pre-2b ≥254-byte rule), descrypt/desext_layer_eq_spec, and C03b.encrypt_eq_fips: the table-driven DES (tables regenerated from const.go) = FIPS 46-3 DES with the crypt(3) salt swap for every 64-bit key and block",
          "T: all DES tables, permutation tables · H: KDF skeletons, Lean primitives",
          "kdf (Go Key vs model) + xcrypt (Go vs the system's libxcrypt 4.4 via cgo, both directions)",
@@ -34,7 +34,7 @@ ROWS = {
          "T: indexAlpha/phi kernels · H: the rest of the model",
          "argon, purego:argon (Go ×3 code paths vs model vs RFC reference; H'; blocks; indexAlpha; lanes up to 255)", "amd64 assembly executed and compared, never modelled"),
  "C05": ("totality of every model function (structural/fuel recursion), parser never stores nil and never returns an empty group, KDF totality, alphabet indices < 64, C16Decode.decode_never_panics",
-         "T+H", "kdf + classify (outcome class incl. panic/timeout under recover + watchdog; bytes ≥ 0x80; lanes ≥ 64)", "Go-side panics inside reflect/stdlib for inputs the model accepts are only sampled"),
+         "T+H", "kdf + classify + parse + dispatch + b64 + stream + codec (outcome class incl. panic/timeout under recover + watchdog; bytes ≥ 0x80; lanes ≥ 64; a process-killing crash is reported with the pending operation)", "Go-side panics inside reflect/stdlib for inputs the model accepts are only sampled"),
  "C06": ("Accept.unmarshal_eq_grammar_⟨S⟩ (Unmarshal accepts h with fields out ⇔ the independent recogniser Spec/Grammar.lean accepts h and reads those fields — all ten layouts, all strings), mismatch_only_when_wellformed, params_iff_unmarshal, C10.canonical_⟨S⟩, C14.guards_iff_accepts_⟨S⟩",
          "T: shapes, guards · H: codec, pipeline",
          "classify (every edit at distance 1, splices, wrap-around numbers, duplicated group members, last-symbol sweep, explicit versions, short strings); a class disagreement is a concrete misclassified string",
@@ -134,6 +134,8 @@ is empty). One run of a check does, in order:
    specification or a model proved equal to one — `DIRECT_OPS` / `DIRECT_BY_SUITE` and the
    classification rule in `lib/runner.py`); the result is `VIOLATION … replay=run/<id>/replay.json`
    with the inputs, or the same line ending `no-failing-input-found` naming what no longer checks.
+   A crash the harness cannot recover from (a panic inside a goroutine the library started, a runtime
+   fatal error) is reported with the operation that was pending when the process died.
    Listed known findings print `KNOWN-FINDING:` and do not fail the run. `--replay` re-runs the whole
    check deterministically at the tier and seed recorded in the replay file.
 
@@ -186,6 +188,13 @@ so any other violation of the same property still fails the check):
   tolerated trailing `$`); the repair gives up the tolerance C06/C20 grant.
 * **F13** (C20) `omitempty` on a non-empty byte array (Marshal never omits it, Unmarshal treats it as
   optional; no shipped scheme uses it).
+* **F16** (C02) BSDi extended DES: every password longer than 8 bytes has an 8-byte twin that verifies
+  against its hash (the 7-bit bytes of the folded key; DES ignores key parity), and the fold itself
+  collides (`passwd30aapaaaaa` / `passwd51ou9lRYvq`). **F17** (C02) bcrypt's key schedule reads the key
+  cyclically: `"a"` ≡ `"a\\0a"` under `$2a$`/`$2b$`, `"ab"` ≡ `"abab"` under `$2$`. Both are properties
+  of the algorithms (libxcrypt computes the same hashes), found by the absorption proofs
+  (`C02b.desext_twin_checks`, `desext_fold_collision`, `bcryptEquiv_coarser`), replayed on the real code
+  on every run, and not repairable inside crypt(3) compatibility.
 * **F14**, **F15** (C20) a `length:` option on an integer field, or one that differs from a byte array's
   size: Unmarshal enforces it on the text, Marshal cannot produce it, so an accepted string has no
   canonical form (`"007"` into `uint8 length:3`). Found by the general C20 proof (`needs_intNoLength`,
